@@ -110,18 +110,29 @@ Record conn := mkConn {
   c_omit : bool;     (* Config.OmitEmptyPsk *)
   c_skipverify : bool; (* Config.InsecureSkipVerify *)
   c_suite : N;       (* the suite the server's selection picks for this hello on its own (input) *)
-  c_tlen : N         (* length of the ticket label the server would issue (input) *)
+  c_tlen : N;        (* length of the ticket label the server would issue (input) *)
+  c_vname : N;       (* Config.InsecureServerNameToVerify: 0 = unset, STAR = "*", else the identity of the name *)
+  c_skiptime : bool  (* Config.InsecureSkipTimeVerify *)
 }.
 
 (* clientSessionCacheKey, handshake_client.go:1340-1348: the ServerName exactly as configured (no
    normalisation: "a.test." and "a.test", "127.0.0.1" and "127.0.0.2" are different keys) when it is
    non-empty, else the remote address. Strings are represented by their identities: equal ids = equal strings.
    The VerifyHostname re-check of loadSession and the full-handshake verification use Config.ServerName; they only
-   run when InsecureSkipVerify is off, and then ServerName is non-empty (otherwise the handshake is refused
-   before anything is built, handshake_client.go:52 / u_handshake_client.go:436 — outside the model's domain),
-   so c_name is the verified name there. *)
+   run when InsecureSkipVerify is off; the name they use is c_vn below. A hello with neither ServerName nor
+   InsecureSkipVerify nor InsecureServerNameToVerify is refused before anything is built (handshake_client.go:52 /
+   u_handshake_client.go:436) — outside the model's domain. *)
 Definition c_name (c : conn) : N := if c_sname c =? 0 then c_addr c else c_sname c.
 Arguments c_name : simpl never.
+
+(* The name a verifying client checks the leaf against (handshake_client.go:468-473 in loadSession, :1205-1209 in
+   verifyServerCertificate): ServerName, unless InsecureServerNameToVerify is set; "*" = verify the chain but no name.
+   0 = no name is checked. *)
+Definition STAR : N := 999999.
+Definition c_vn (c : conn) : N :=
+  if c_vname c =? 0 then c_sname c else if c_vname c =? STAR then 0 else c_vname c.
+Arguments c_vn : simpl never.
+Definition name_ok (vn : N) (names : list N) : bool := (vn =? 0) || existsb (N.eqb vn) names.
 
 Definition cache := list (N * session).
 Definition lookup (k : N) (ca : cache) : option session :=
@@ -149,9 +160,9 @@ Definition load_session (ca : cache) (c : conn) (hello_ems : bool) : loaded :=
     (* 438-448 *)
     if negb (mem (s_vers s) (sp_vers sp)) then none else
     (* 454-460: expired certificate deletes the entry *)
-    if s_notafter s <? c_now c then mkLoaded (del (c_name c) ca) None else
+    if negb (c_skiptime c) && (s_notafter s <? c_now c) then mkLoaded (del (c_name c) ca) None else
     (* 462-480 *)
-    if negb (c_skipverify c) && (negb (s_verified s) || negb (mem (c_name c) (s_certnames s))) then none else
+    if negb (c_skipverify c) && (negb (s_verified s) || negb (name_ok (c_vn c) (s_certnames s))) then none else
     if negb (s_vers s =? V13) then
       (* 482-491 *)
       if negb (mem (s_suite s) (sp_suites sp)) then none else
@@ -242,7 +253,8 @@ Record obs := mkObs {
 }.
 
 Definition verify_ok (c : conn) : bool :=
-  c_skipverify c || ((c_now c <=? sv_notafter (c_srv c)) && mem (c_name c) (sv_certnames (c_srv c))).
+  (* with InsecureSkipTimeVerify the chain is verified at the leaf's NotAfter *)
+  c_skipverify c || ((c_skiptime c || (c_now c <=? sv_notafter (c_srv c))) && name_ok (c_vn c) (sv_certnames (c_srv c))).
 
 (* the session the client stores after a handshake at version v *)
 Definition stored (c : conn) (v suite : N) (ems : bool) (resumed_from : option session) (tcreated : N) : session :=
